@@ -156,3 +156,54 @@ func VC_C12_var() {
 	verifAssert(vVar12 == v0, "C12.var.reset-restores-pre-mock-value")
 	verifReached("C12.var")
 }
+
+type vT12v struct{ n int }
+
+func (t vT12v) V(i int) int  { return i + 1 }
+func (t *vT12v) P(i int) int { return i + 2 }
+
+// VC_C12_struct_forms: the pointer form and the value form of one struct type are looked
+// up in the same builder in either order: the most recent instruction for the
+// value-receiver method V and for the pointer-receiver method P both take effect.
+func VC_C12_struct_forms() {
+	vEnv()
+	vPristine(vT12v.V)
+	vPristine((*vT12v).P)
+	// the compiler-generated pointer-receiver wrapper of V is a function of its own
+	vPristine((*vT12v).V)
+	verifApart(verifFuncCode(vT12v.V), verifFuncCode((*vT12v).P), 32)
+	verifApart(verifFuncCode(vT12v.V), verifFuncCode((*vT12v).V), 32)
+	verifApart(verifFuncCode((*vT12v).P), verifFuncCode((*vT12v).V), 32)
+	b := Create()
+	v1, v2 := verifInt("v1"), verifInt("v2")
+	panicked := false
+	func() {
+		defer func() {
+			if r := recover(); r != nil {
+				panicked = true
+			}
+		}()
+		if verifBool("pointerFirst") {
+			b.Struct(&vT12v{}).Method("P").Return(v1)
+			b.Struct(vT12v{}).Method("V").Return(v2)
+		} else {
+			b.Struct(vT12v{}).Method("V").Return(v2)
+			b.Struct(&vT12v{}).Method("P").Return(v1)
+		}
+	}()
+	verifAssert(!panicked, "C12.forms.accepted")
+	if panicked {
+		return
+	}
+	fp, ok1 := vInvoke((*vT12v).P, "C12.forms").(func(*vT12v, int) int)
+	fv, ok2 := vInvoke(vT12v.V, "C12.forms").(func(vT12v, int) int)
+	verifAssert(ok1 && ok2, "C12.forms.installed-have-method-signatures")
+	if ok1 && ok2 {
+		verifAssert(vDiverted((*vT12v).P) && fp(&vT12v{}, 1) == v1, "C12.forms.pointer-method-follows-latest-instruction")
+		verifAssert(vDiverted(vT12v.V) && fv(vT12v{}, 1) == v2, "C12.forms.value-method-follows-latest-instruction")
+	}
+	verifAssert(!vDiverted((*vT12v).V), "C12.forms.wrapper-untouched")
+	b.Reset()
+	verifAssert(!vDiverted((*vT12v).P) && !vDiverted(vT12v.V), "C12.forms.reset-restores")
+	verifReached("C12.forms")
+}
